@@ -386,6 +386,19 @@ pub fn run(thorough: bool) -> i32 {
             }
         }
     }
+    // many source blocks: more than 256 (and 255, RaptorQ's maximum) - the SBN field widths differ per scheme
+    for (scheme, e, b, parity, len) in [
+        (Scheme::NoCode, 1u16, 1u16, 0u16, 300usize),
+        (Scheme::Rs28, 1, 1, 1, 300),
+        (Scheme::Rs28Us, 1, 1, 1, 300),
+        (Scheme::Raptor, 1, 4, 1, 1100),
+        (Scheme::RaptorQ, 1, 1, 1, 255),
+        (Scheme::NoCode, 2, 3, 0, 3000),
+    ] {
+        for interleave in [1u8, 3] {
+            bases.push(Case { oti: OtiSpec::new(scheme, e, b, parity, interleave == 1), len, cenc: 0, interleave, count: 1, carousel: false, remove_at: None, immediate_stop: None });
+        }
+    }
     let nbase = bases.len();
     // one deviation: removal after every packet index, with and without immediate stop
     let mut cases = bases.clone();
